@@ -69,3 +69,12 @@ Definition xs_valid := x_valid.
 Definition xs_ctor := x_ctor.
 Definition xs_pair := x_pair.
 Definition xs_names := x_scheme_names.
+
+(* semver helpers (C18) *)
+From UV.Schemes Require Import Semver.
+Definition x_sv_next (kind : nat) (t : str) : res str :=
+  match semver_ctor t with
+  | Ok v => Ok (semver_str (match kind with 0 => next_patch v | 1 => next_minor v | _ => next_major v end))
+  | Err e => Err e
+  end.
+Definition x_sv_stable (t : str) : res bool := match semver_ctor t with Ok v => Ok (is_stable v) | Err e => Err e end.
